@@ -460,3 +460,134 @@ def _use(fn):
 
 
 AffineTransformMesh.replay = _use(_native.affine_mesh_sweep)
+
+
+# --------------------------------------------------------------------------- mesh_file_to_precomputed (the script's function)
+
+import types as _types  # noqa: E402
+
+from .c01_nibabel import Logged as _Logged  # noqa: E402
+
+MS = "neuroglancer_scripts.scripts.mesh_to_precomputed."
+
+
+def _lg(target_, result_fn, name_=None):
+    class _L(_Logged):
+        target = target_
+        name = (name_ or target_.rsplit(".", 1)[-1]) + "[call-site]"
+
+        def apply(self, interp, fn, args, kwargs):
+            r = result_fn(args, kwargs)
+            ctx().calls_log.append((self.target, {"args": args, "kwargs": kwargs}, r))
+            return r
+    return _L
+
+
+@register
+class MeshFileToPrecomputed(Contract):
+    """mesh_file_to_precomputed: the vertices handed to the precomputed writer are the file's vertices, moved by
+    the coordinate transform if one is given (affine_transform_mesh, own contract above) and THEN converted from
+    millimetres to nanometres (x 10^6); triangles as returned by the transform, as uint32; stored as
+    <mesh_dir>/<mesh name> through the destination's accessor; the info gets its 'mesh' key when missing and a
+    mismatching --mesh-dir is refused (return 1, nothing stored)"""
+    target = MS + "mesh_file_to_precomputed"
+    props = ("C17",)
+    use_at_call_sites = False
+    configs = tuple((tr, info_mesh, md) for tr in (False, True) for info_mesh in (None, "mesh", "other") for md in (None, "other"))
+
+    def local_contracts_for(self, cfg):
+        u = self
+        acc = _types.SimpleNamespace(stored=[])
+
+        def store_file(args, kw):
+            acc.stored.append((args, kw))
+            return None
+        u.acc = acc
+        gafu = _lg("neuroglancer_scripts.accessor.get_accessor_for_url", lambda a, k: u.accessor_obj)
+        ioe = _lg("neuroglancer_scripts.precomputed_io.get_IO_for_existing_dataset", lambda a, k: _types.SimpleNamespace(info=u.info))
+        ion = _lg("neuroglancer_scripts.precomputed_io.get_IO_for_new_dataset", lambda a, k: _types.SimpleNamespace(info=a[0]))
+        atm = _lg("neuroglancer_scripts.mesh.affine_transform_mesh", lambda a, k: (u.V2, u.T2))
+        save = _lg("neuroglancer_scripts.mesh.save_mesh_as_precomputed", lambda a, k: None)
+        return {k_.target: k_() for k_ in (gafu, ioe, ion, atm, save)}
+
+    def setup(self, c, cfg):
+        import nibabel
+        tr, info_mesh, md = cfg
+        self.cfg = cfg
+        n, m = c.int("num_vertices", inp=True), c.int("num_triangles", inp=True)
+        c.assume(And(n >= 0, m >= 0))
+        self.n, self.m = n, m
+        self.V = SArr.fresh(c, "V", "float32", (n, 3), kind="real")
+        self.T = SArr.fresh(c, "T", "int32", (m, 3), kind="int")
+        self.V2 = SArr.fresh(c, "V_transformed", "float64", (n, 3), kind="real", inp=False)
+        self.T2 = SArr.fresh(c, "T_transformed", "int32", (m, 3), kind="int", inp=False)
+        u = self
+
+        class Mesh:
+            def get_arrays_from_intent(self, intent):
+                return [_types.SimpleNamespace(data=u.V if "POINTSET" in intent else u.T)]
+        c.ghost["nib_file"] = Mesh()          # served by the nibabel.load model of c01_nibabel
+        self.info = {"type": "segmentation", "data_type": "uint32", "num_channels": 1, "scales": []}
+        if info_mesh:
+            self.info["mesh"] = info_mesh
+        stored = []
+        self.stored = stored
+
+        class Acc:
+            _pyvc_symbolic = True
+
+            def store_file(self, *a, **k):
+                stored.append((a, k))
+
+            def truth(self):
+                return True
+        self.accessor_obj = Acc()
+        self.A = array_from_list_([[c.real(f"A{i}{j}", inp=True) for j in range(4)] for i in range(3)] + [[0.0, 0.0, 0.0, 1.0]])
+        return ("/in/surface.L.gii", "/data/dataset"), {"mesh_name": None, "mesh_dir": md, "coord_transform": self.A if tr else None, "options": {}}
+
+    def bind(self, fn, args, kwargs):
+        return {}
+
+    def ensures(self, c, result):
+        tr, info_mesh, md = self.cfg
+        want_dir = md or "mesh"
+        mismatch = info_mesh is not None and info_mesh != want_dir
+        log = c.calls_log
+        saves = [x for x in log if x[0].endswith("save_mesh_as_precomputed")]
+        if mismatch:
+            yield ("mismatching-mesh-dir:refused(returns 1, nothing written)", result == 1 and not saves and not self.stored)
+            return
+        yield ("returns-normally-with-None", result is None)
+        yield ("info-gets-its-mesh-key", self.info.get("mesh") == want_dir)
+        news = [x for x in log if x[0].endswith("get_IO_for_new_dataset")]
+        yield ("info-rewritten-exactly-when-the-key-was-missing", (len(news) == 1 and news[0][1]["kwargs"].get("overwrite_info") is True) if info_mesh is None else not news)
+        yield ("one-mesh-written", len(saves) == 1 and len(self.stored) == 1)
+        if len(saves) != 1 or len(self.stored) != 1:
+            return
+        buf, pts, tris = saves[0][1]["args"][:3]
+        atm = [x for x in log if x[0].endswith("affine_transform_mesh")]
+        yield ("coordinate-transform-applied-exactly-when-given(to the file's vertices and triangles, with that matrix)",
+               (len(atm) == 1 and atm[0][1]["args"][0] is self.V and atm[0][1]["args"][1] is self.T and atm[0][1]["args"][2] is self.A) if tr else not atm)
+        src_v, src_t = (self.V2, self.T2) if tr else (self.V, self.T)
+        ok = isinstance(pts, SArr) and pts.ndim == 2 and isinstance(tris, SArr) and tris.ndim == 2
+        yield ("writer-gets-2-D-vertex-and-triangle-arrays", ok)
+        if ok:
+            k, j = c.int("k", inp=True), c.int("j", inp=True)
+            c.assume(And(k >= 0, k < self.n, j >= 0, j < 3))
+            yield ("vertices-in-nanometres==10^6*(transformed)-vertices-in-millimetres", pts.elem(k, j) == src_v.elem(k, j) * 1000000)
+            t = c.int("t", inp=True)
+            c.assume(And(t >= 0, t < self.m))
+            c.assume(src_t.elem(t, j) >= 0)              # vertex indices of a valid mesh are non-negative
+            yield ("triangles-unchanged(uint32)", tris.elem(t, j) == src_t.elem(t, j))
+            yield ("triangles-dtype-uint32", tris.dtype == np.dtype("uint32"))
+            yield ("counts", And(pts.shape[0] == self.n, tris.shape[0] == self.m))
+        a, kw = self.stored[0]
+        yield ("stored-as-<mesh_dir>/<input file stem>", a[0] == want_dir + "/surface.L")
+
+    def raises_when(self, c):
+        return []
+
+
+def array_from_list_(rows):
+    from pyvc.models_numpy import array_from_list
+    return array_from_list(rows, np.float64)
